@@ -37,3 +37,12 @@ _case("x_loop_sum", items=ListOf(Int(0, 6), max_len=4), lim=Int(0, 6))
 _case("x_zip_enum", xs=_L, ys=_L)
 _case("x_try", a=Int(-6, 6), items=_L)
 _case("x_chain_cmp", a=_I, b=_I, c=_I)
+_case("x_iadd_subscript", items=_L, v=Int(0, 5))
+
+from spec import xcheck_cases as _xc  # noqa: E402
+
+
+@contract(_K + "XBox.x_iadd_attr", property="XC", replayable=False)
+class _x_iadd_attr:
+    self_shape = Obj(_xc.XBox, dict(items=_L))
+    params = dict(v=Int(0, 5))
